@@ -2,8 +2,8 @@
   The concrete instance of the shell's `Handlers` parameter (Model/Handlers.lean), and the driver commands that
   replay recorded executions of the real code on it.
 
-    hcall kind now  xsa succ?  args  tape      one handler / generator call
-    xiter now threshold  n confent*  n xent*  event  tape      one loop iteration of the WHOLE model (shell + handlers)
+    hcall kind now  xsa succ?  args  tape  sad      one handler / generator call     sad := n (daddr proto spi)*
+    xiter now threshold  n confent*  n xent*  event  tape  sad      one loop iteration of the WHOLE model (shell + handlers)
 
       xsa     := core ext                          (core as in `miter`)
       ext     := conf chosen? n kid* creating? rekeying? deleting?          x? := 0 | 1 x
@@ -52,6 +52,12 @@ def ext : P Ext := do
 def xsa : P XSa := do
   let c ← core; let e ← ext
   pure { core := c, ext := e }
+
+def key : P (Bytes × Nat × Bytes) := do
+  let d ← hex; let p ← nat; let s ← hex
+  pure (d, p, s)
+
+def rKey (k : Bytes × Nat × Bytes) : List String := [hexOut k.1, toString k.2.1, hexOut k.2.2]
 
 def tval : P TVal := do
   let k ← tok
@@ -108,23 +114,23 @@ def hkind : P (Nat → HM HRes) := do
 def cmd (c : String) (args : List String) : Option String :=
   match c with
   | "hcall" => do
-      let ((now, me, succ, h, tape), left) ← (do
-        let now ← nat; let me ← xsa; let succ ← optOf xsa; let h ← hkind; let tape ← listOf tval
-        pure (now, me, succ, h, tape) : P _).run args
+      let ((now, me, succ, h, tape, sad), left) ← (do
+        let now ← nat; let me ← xsa; let succ ← optOf xsa; let h ← hkind; let tape ← listOf tval; let sad ← listOf key
+        pure (now, me, succ, h, tape, sad) : P _).run args
       if left ≠ [] then none else
-      let o := runH (h now) me succ { vals := tape }
-      pure (join (rXSa o.me ++ rOpt rXSa o.succ ++ rHRes o.res ++ rList rNl o.nl ++ [toString o.tape.vals.length, rB o.tape.bad]))
+      let o := runH (h now) me succ { vals := tape } sad
+      pure (join (rXSa o.me ++ rOpt rXSa o.succ ++ rHRes o.res ++ rList rNl o.nl ++ [toString o.tape.vals.length, rB o.tape.bad] ++ rList rKey o.sad))
   | "xiter" => do
-      let ((now, thr, confs, ents, ev, tape), left) ← (do
+      let ((now, thr, confs, ents, ev, tape, sad), left) ← (do
         let now ← nat; let thr ← nat
         let confs ← listOf (do let a ← hex; let b ← hex; let c ← conf; pure (a, b, c))
         let ents ← listOf (do let x ← xsa; let s ← optOf xsa; pure (x, s))
-        let ev ← event; let tape ← listOf tval
-        pure (now, thr, confs, ents, ev, tape) : P _).run args
+        let ev ← event; let tape ← listOf tval; let sad ← listOf key
+        pure (now, thr, confs, ents, ev, tape, sad) : P _).run args
       if left ≠ [] then none else
       let sas : List Sa := ents.map fun (x, s) => { core := x.core, succ := s.map (·.core) }
       let exts := ents.flatMap fun (x, s) => (x.core.mySpi, x.ext) :: (match s with | some n => [(n.core.mySpi, n.ext)] | none => [])
-      let w : XWorld := { tape := { vals := tape }, exts := exts, confs := confs }
+      let w : XWorld := { tape := { vals := tape }, exts := exts, confs := confs, sad := sad }
       let (w, o) := loopIter concreteHandlers w { sas := sas, threshold := thr } now ev
       let rEnt := fun (s : Sa) =>
         rSaIn o.ctl.sas s ++ rOpt rExt (w.extOf s.core.mySpi) ++
